@@ -208,6 +208,8 @@ func (in *inst) compute(t *term) *value {
 		}
 	}
 	p := func(i int) string { return t.X[i].S }
+	// a mangling is a function of the CONTENT it mangles (equal terms of the algebra are mangled the same way)
+	mv := func() int { return in.Variant + hashOf(string(args[0].canon())+"/"+p(1)) }
 	switch t.Op {
 	case "key":
 		return doDecPriv(in.Keys[p(0)], 0)
@@ -217,32 +219,32 @@ func (in *inst) compute(t *term) *value {
 		return doSign(args[0].Priv, p(1), in.Msgs[p(2)], vr)
 	case "Alter":
 		curve := t.X[0].T.X[1].S
-		return &value{Sort: "Sig", OK: true, Bytes: mangleSig(args[0].Bytes, p(1), curve, vr)}
+		return &value{Sort: "Sig", OK: true, Bytes: mangleSig(args[0].Bytes, p(1), curve, mv())}
 	case "Verify":
 		return doVerify(args[0].Pub, in.Msgs[p(1)], args[2].Bytes)
 	case "EncPub":
 		return doEncPub(args[0].Pub, p(1), vr)
 	case "ManglePub":
 		src := in.eval(t.X[0].T.X[0].T) // the key that was encoded
-		return &value{Sort: "PubBytes", OK: true, Bytes: manglePub(args[0].Bytes, p(1), curveName(src.Pub.Curve), vr)}
+		return &value{Sort: "PubBytes", OK: true, Bytes: manglePub(args[0].Bytes, p(1), curveName(src.Pub.Curve), mv())}
 	case "DecPub":
 		return doDecPub(args[0].Bytes, p(1), vr)
 	case "EncPriv":
 		return doEncPriv(args[0].Priv, vr)
 	case "ManglePriv":
-		return &value{Sort: "PrivBytes", OK: true, Bytes: manglePriv(args[0].Bytes, p(1), vr)}
+		return &value{Sort: "PrivBytes", OK: true, Bytes: manglePriv(args[0].Bytes, p(1), mv())}
 	case "DecPriv":
 		return doDecPriv(args[0].Bytes, vr)
 	case "WIFEnc":
 		return doWIFEnc(args[0].Priv, p(1), p(2), vr)
 	case "MangleWif":
-		return &value{Sort: "Wif", OK: true, Str: mangleWif(args[0].Str, p(1), vr)}
+		return &value{Sort: "Wif", OK: true, Str: mangleWif(args[0].Str, p(1), mv())}
 	case "WIFDec":
 		return doWIFDec(args[0].Str, p(1), vr)
 	case "NEP2Enc":
 		return doNEP2Enc(args[0].Priv, in.Pass[p(1)], in.SP)
 	case "MangleNep":
-		return &value{Sort: "Nep2", OK: true, Str: mangleNep(args[0].Str, p(1), vr)}
+		return &value{Sort: "Nep2", OK: true, Str: mangleNep(args[0].Str, p(1), mv())}
 	case "NEP2Dec":
 		return doNEP2Dec(args[0].Str, in.Pass[p(1)], in.SP)
 	case "VScript":
@@ -258,7 +260,7 @@ func (in *inst) compute(t *term) *value {
 	case "SHToAddr":
 		return doSHToAddr(args[0].Bytes)
 	case "MangleAddr":
-		return &value{Sort: "Addr", OK: true, Str: mangleAddr(args[0].Str, p(1), vr)}
+		return &value{Sort: "Addr", OK: true, Str: mangleAddr(args[0].Str, p(1), mv())}
 	case "AddrToSH":
 		return doAddrToSH(args[0].Str)
 	}
@@ -368,6 +370,10 @@ func (j *caseJudge) judge(in *inst, c *ecase, t *term) {
 			return
 		}
 		j.res.Inc("maybe_answered", 1)
+	}
+	// what the driver itself made (manglings) is an input, not an answer of the code
+	if strings.HasPrefix(t.Op, "Mangle") || t.Op == "Alter" {
+		return
 	}
 	// equal normal forms <=> equal bytes, within the sort
 	can := v.canon()
